@@ -96,3 +96,74 @@ def check_delay_sign(prog: Program, res: Result, rule: str, only: set[str] | Non
                         "index t + delay < 0, which wraps to the end of the block, and the skipback (max delay) carries nothing over for leading channels",
                         key=key)
     return n
+
+
+_FALSY_EXAMPLE = ("def f(data, axis: int | None = 0, scale: float | None = None, name: str | None = None, flag: bool = False):\n"
+                  "    a = axis % 2 if axis else None\n    b = scale or 1.0\n    if not axis:\n        pass\n"
+                  "    c = 0 if axis is None else axis\n    d = name or 'x'\n    e = 1 if flag else 2\n    return a, b, c, d, e\n")
+_NUMERIC_ANN = ("int", "float", "np.ndarray", "ArrayLike", "npt.ArrayLike", "tuple[int, ...]", "Sequence[int]")
+
+
+def _optional_numeric_params(fn: ast.FunctionDef) -> set[str]:
+    """Parameters annotated `int | None`, `float | None`, `int | tuple[int, ...] | None` ...: a numeric value where 0 is legal,
+    or None."""
+    out = set()
+    a = fn.args
+    for arg in list(a.posonlyargs) + list(a.args) + list(a.kwonlyargs):
+        if arg.annotation is None:
+            continue
+        parts = [p.strip() for p in norm(arg.annotation).replace("Optional[", "").rstrip("]").split("|")]
+        if "None" in parts or "Optional[" in norm(arg.annotation):
+            rest = [p for p in parts if p != "None"]
+            if rest and all(any(p == t or p.startswith(t) for t in _NUMERIC_ANN) for p in rest):
+                out.add(arg.arg)
+        elif parts and all(p in ("int", "float") for p in parts) and arg.arg in ("axis", "start", "mask_value", "offset"):
+            out.add(arg.arg)
+    return out
+
+
+def _truthiness_uses(fn: ast.FunctionDef, names: set[str]) -> list[tuple[ast.AST, str]]:
+    """Places where one of `names` is used for its truth value: `if p`, `not p`, `p or x`, `p and x`, `x if p else y`."""
+    hits = []
+
+    def bare(e):
+        return isinstance(e, ast.Name) and e.id in names
+    for n in ast.walk(fn):
+        if isinstance(n, (ast.If, ast.While, ast.IfExp)) and bare(n.test):
+            hits.append((n, n.test.id))
+        elif isinstance(n, ast.UnaryOp) and isinstance(n.op, ast.Not) and bare(n.operand):
+            hits.append((n, n.operand.id))
+        elif isinstance(n, ast.BoolOp):
+            for v in n.values[:-1] if isinstance(n.op, ast.Or) else n.values:
+                if bare(v):
+                    hits.append((n, v.id))
+    return hits
+
+
+def check_no_falsy_zero(prog: Program, res: Result, rule: str, modules: list[str], what: str) -> None:
+    """An optional numeric parameter (`axis: int | None`, `mask_value: float | None`, `start: int`) tested for its truth value
+    treats the legal value 0 like None / "not given": `axis % ndim if axis else None` turns axis=0 into the whole-array
+    reduction.  Such parameters must be tested with `is None` (or compared).  One obligation per module scanned, one
+    violation per truthiness use."""
+    ex = ast.parse(_FALSY_EXAMPLE).body[0]
+    got = sorted(n for _, n in _truthiness_uses(ex, _optional_numeric_params(ex)))
+    if got != ["axis", "axis", "scale"]:
+        raise AnalysisError(f"falsy-zero lint: the built-in positive example is no longer recognised ({got})")
+    for m in modules:
+        mod = prog.module(m)
+        prog.consulted.add(m)
+        nbad = nfun = 0
+        for f in prog.all_funcs():
+            if f.module is not mod:
+                continue
+            names = _optional_numeric_params(f.node)
+            if not names:
+                continue
+            nfun += 1
+            for node, nm in _truthiness_uses(f.node, names):
+                nbad += 1
+                res.bad(rule, f, node, f"`{norm(node)[:80]}` uses the numeric parameter `{nm}` for its truth value: the legal value 0 is treated like None - {what}",
+                        key=f"falsy:{f.qualname}:{nm}")
+        if not nbad:
+            res.ok(rule, None, mod.tree, f"no optional numeric parameter of {m} is tested for its truth value ({nfun} functions with such parameters)",
+                   key=f"falsy:{m}", construct=m, where=m)
